@@ -21,10 +21,19 @@ use std::path::Path;
 use std::process::{Child, ChildStdin, ChildStdout, Command, Stdio};
 
 #[derive(Clone, Debug, Serialize, Deserialize)]
-pub struct Case {
+pub struct ProgCase {
     pub prog: Program,
     /// executor of each step in the mixed execution: 0 sync, 1 local async, 2 remote async
     pub assign: Vec<u8>,
+}
+
+#[derive(Clone, Debug, Serialize, Deserialize)]
+pub enum Case {
+    Prog(ProgCase),
+    /// checksum-valid index records with odd fields (possibly on top of good ones) planted
+    /// identically in three caches; every read-side call must then agree across the flavours
+    /// (no model: the statement is equivalence "whatever the cache holds")
+    Hostile { keys: Vec<String>, good_first: bool, recs: Vec<super::c20::HostileRec> },
 }
 
 pub struct C12;
@@ -223,6 +232,76 @@ fn cfg(tier: Tier) -> ProgCfg {
     }
 }
 
+impl C12 {
+    fn run_hostile(&self, case: &Case, keys: &[String], good_first: bool, recs: &[super::c20::HostileRec], st: &mut Stats, env: &mut WorkerEnv) -> Result<(), String> {
+        env.scratch.reset();
+        let blobs = vec![crate::blob::Blob::new(9, 1)];
+        let exes = [Exe::Sync, Exe::Local, Exe::Remote];
+        let mut ctxs = Vec::new();
+        for i in 0..3 {
+            let r = env.scratch.root.join(format!("pure{i}"));
+            let _ = std::fs::remove_dir_all(&r);
+            std::fs::create_dir_all(r.join("cache")).map_err(|e| format!("INFRA: {e}"))?;
+            std::fs::create_dir_all(r.join("scratch")).map_err(|e| format!("INFRA: {e}"))?;
+            ctxs.push(Ctx::new(r.join("cache"), r.join("scratch"), keys, &blobs));
+        }
+        for (e, ctx) in ctxs.iter().enumerate() {
+            if good_first {
+                for k in 0..keys.len() {
+                    let s = Step { op: Op::Write(WriteSpec::simple(Some(k), 0)), fl: Fl::Sync };
+                    let _ = exec_with(ctx, &s, exes[e])?;
+                }
+            }
+            for r in recs {
+                super::c20::plant(ctx, r);
+            }
+        }
+        for k in 0..keys.len() {
+            for op in [
+                Op::Meta { key: k },
+                Op::IdxFind { key: k },
+                Op::Read { key: k },
+                Op::Stream { by: By::Key(k), bufs: vec![] },
+                Op::Extract { kind: XKind::Copy, checked: true, by: By::Key(k), dest: Dest::Absent },
+            ] {
+                let s = Step { op, fl: Fl::Sync };
+                let mut outs = Vec::new();
+                for e in 0..3 {
+                    let r = exec_with(&ctxs[e], &s, exes[e])?;
+                    st.eval(1);
+                    if let Out::Panic(m) = &r.out {
+                        return Err(format!("{:?} through {} on planted records {:?} panicked: {m}", s.op, exe_name(exes[e]), recs.iter().map(|r| &r.integrity).collect::<Vec<_>>()));
+                    }
+                    // timestamps here are all explicit (planted or written with the default clock):
+                    // blank the ones the library assigned
+                    let n = match normalise(&r.out, &Model::new(), &recs.iter().map(|r| r.time.clone()).collect::<Vec<_>>()) {
+                        o => o,
+                    };
+                    outs.push((n, r.out));
+                }
+                for e in 1..3 {
+                    if outs[e].0 != outs[0].0 {
+                        return Err(format!(
+                            "{:?} on a cache holding planted records {:?} (good entries first: {good_first}): the flavours disagree: {} gives {} but {} gives {}",
+                            s.op,
+                            recs.iter().map(|r| &r.integrity).collect::<Vec<_>>(),
+                            exe_name(exes[0]),
+                            outs[0].1.short(),
+                            exe_name(exes[e]),
+                            outs[e].1.short()
+                        ));
+                    }
+                }
+            }
+        }
+        st.class("hostile_records_differential");
+        st.class("nontrivial");
+        st.nontrivial(hash_of(case));
+        st.sample(|| serde_json::to_value(case).unwrap());
+        Ok(())
+    }
+}
+
 impl Engine for C12 {
     type Case = Case;
     fn id(&self) -> &'static str {
@@ -235,8 +314,9 @@ impl Engine for C12 {
          execution in one cache where every step is assigned a generated executor. Oracle: at every step the normalised results of the three pure executions are equal (variant and \
          payload; for I/O errors the not-found bit; library-assigned timestamps blanked after the model judged them against the clock window) and each is admitted by the reference \
          model; at the end the three directory trees decode (independent reference reader) to the same record sequence per bucket and the same content set; the mixed execution \
-         follows the model step by step and a final sweep reads every key and address through all three flavours. Non-trivial = >=1 state-changing step and >=1 step that returns an \
-         error or follows a damage step; distinct = distinct program"
+         follows the model step by step and a final sweep reads every key and address through all three flavours. A second case kind plants checksum-valid index records with odd fields (on top of good entries or not) identically in \
+         three caches and demands that metadata, index::find, read, stream and checked copy agree across the three flavours (no model). Non-trivial = >=1 state-changing step \
+         and >=1 step that returns an error or follows a damage step, or a planted-record case; distinct = distinct case"
             .into()
     }
     fn assumptions(&self) -> Vec<String> {
@@ -249,12 +329,20 @@ impl Engine for C12 {
         tier.pick(800, 25000)
     }
     fn strategy(&self, tier: Tier) -> BoxedStrategy<Case> {
-        (basic::program(cfg(tier)), vec(0u8..3, 60)).prop_map(|(prog, assign)| Case { prog, assign }).boxed()
+        prop_oneof![
+            6 => (basic::program(cfg(tier)), vec(0u8..3, 60)).prop_map(|(prog, assign)| Case::Prog(ProgCase { prog, assign })),
+            1 => (crate::gen::key_pool(2, 3), any::<bool>(), vec(super::c20::hostile_rec(3), 1..4)).prop_map(|(keys, good_first, recs)| Case::Hostile { keys, good_first, recs }),
+        ]
+        .boxed()
     }
     fn max_shrink_iters(&self) -> u32 {
         1500
     }
     fn run_case(&self, c: &Case, st: &mut Stats, env: &mut WorkerEnv) -> Result<(), String> {
+        let c = match c {
+            Case::Prog(p) => p,
+            Case::Hostile { keys, good_first, recs } => return self.run_hostile(c, keys, *good_first, recs, st, env),
+        };
         let prog = &c.prog;
         let addrs = basic::addr_universe(prog);
         // three pure executions, each in its own cache, advanced in lock step
@@ -363,7 +451,7 @@ impl Engine for C12 {
         }
         if had_change && had_err_or_damage {
             st.class("nontrivial");
-            st.nontrivial(hash_of(c));
+            st.nontrivial(hash_of(&c.prog));
         }
         st.sample(|| super::progeng::compact_program(prog));
         Ok(())
